@@ -35,6 +35,9 @@ type c14world struct {
 	attrG  bool
 	initG  bool
 	bodyF  bool
+	steps  int // edit operations executed so far
+	baDone bool
+	bare   bool // the initial globals were removed
 }
 
 func c14new() *c14world {
@@ -142,11 +145,11 @@ func c14ops() []c14op {
 		{"set AddrSpace = 1 on the first global", "set-addrspace", "global-type", func(w *c14world) bool {
 			return len(w.m.Globals) > 0 && w.m.Globals[0].AddrSpace == 0
 		}, func(w *c14world) { w.m.Globals[0].AddrSpace = 1 }},
-		{"double the integer constant of @limit in place (X.Lsh)", "edit-constant", "constant", func(w *c14world) bool { return w.limit.X.BitLen() < 40 }, func(w *c14world) {
+		{"double the integer constant of @limit in place (X.Lsh)", "edit-constant", "constant", func(w *c14world) bool { return !w.bare && w.limit.X.BitLen() < 40 }, func(w *c14world) {
 			// the value is reachable through the exported *big.Int; the constant is in use.
 			w.limit.X.Lsh(w.limit.X, 1)
 		}},
-		{"negate the floating-point constant of @ratio in place (X.Neg)", "edit-constant", "constant", nil, func(w *c14world) { w.ratio.X.Neg(w.ratio.X) }},
+		{"negate the floating-point constant of @ratio in place (X.Neg)", "edit-constant", "constant", func(w *c14world) bool { return !w.bare }, func(w *c14world) { w.ratio.X.Neg(w.ratio.X) }},
 		{"append metadata def with explicit sparse ID", "append-metadata-explicit", "metadata", func(w *c14world) bool {
 			for _, d := range w.m.MetadataDefs {
 				if d.ID() == 7 {
@@ -158,6 +161,19 @@ func c14ops() []c14op {
 			// a node that already carries a number (as one taken from a parsed module does).
 			md := &metadata.Tuple{MetadataID: 7, Fields: []metadata.Field{&metadata.String{Value: "z"}}}
 			w.m.MetadataDefs = append(w.m.MetadataDefs, md)
+		}},
+		// a module WITHOUT global variables (only possible as the first step): sections that are
+		// empty are where a printer takes a shortcut.
+		{"start from a module without global variables", "bare-module", "global", func(w *c14world) bool { return w.steps == 0 }, func(w *c14world) {
+			w.m.Globals = nil
+			w.bare = true
+		}},
+		{"store the address of the last block of the LAST function in the first block of the FIRST function", "append-inst", "local", func(w *c14world) bool {
+			return len(w.funcs) == 2 && len(w.funcs[0].Blocks) > 0 && len(w.funcs[1].Blocks) > 0 && !w.baDone
+		}, func(w *c14world) {
+			w.baDone = true
+			g := w.funcs[1]
+			w.funcs[0].Blocks[0].NewStore(constant.NewBlockAddress(g, g.Blocks[len(g.Blocks)-1]), constant.NewUndef(types.NewPointer(types.I8Ptr)))
 		}},
 		// declarations that later become definitions, and attribute fields set after a print: a
 		// printer that stores a default it has just printed (a linkage, a type, a flag) into the
@@ -211,7 +227,7 @@ func c14ops() []c14op {
 				w.block(sel).NewAdd(w.operand(), constant.NewInt(types.I32, 4)).SetName(w.name("v"))
 			}},
 			c14op{"append void call @" + tag, "append-inst", "local", c14hasBlock(sel), func(w *c14world) { w.block(sel).NewCall(w.decl) }},
-			c14op{"append gep+store @" + tag, "append-inst", "local", c14hasBlock(sel), func(w *c14world) {
+			c14op{"append gep+store @" + tag, "append-inst", "local", func(w *c14world) bool { return !w.bare && w.block(sel) != nil }, func(w *c14world) {
 				p := w.block(sel).NewGetElementPtr(w.st, w.origin, constant.NewInt(types.I32, 0), constant.NewInt(types.I32, 1))
 				w.block(sel).NewStore(w.operand(), p)
 			}},
@@ -437,7 +453,7 @@ func c14run(ops []c14op, obs []c14obs, seq []int, obsAt, obsKind []int) (final s
 		// an edit that is possible in the observer-free history (that is how the history was
 		// enumerated) must be possible after observers ran: if it fails now, observation has
 		// changed the IR.
-		if p := fw.Try(func() { ops[oi].do(w) }); p != "" {
+		if p := fw.Try(func() { ops[oi].do(w); w.steps++ }); p != "" {
 			if len(obsAt) == 0 {
 				panic("C14 harness: edit operation fails in the observer-free history: " + ops[oi].name + ": " + p)
 			}
@@ -459,6 +475,7 @@ func c14enabled(ops []c14op, seq []int) []int {
 	w := c14new()
 	for _, oi := range seq {
 		ops[oi].do(w)
+		w.steps++
 	}
 	var en []int
 	for i, op := range ops {
@@ -582,7 +599,7 @@ func runC14(c *fw.Check) {
 		maxLen, maxLen2 = 5, 4
 		c.SetBudget(40 * 60 * 1e9)
 	}
-	c.Rule = fmt.Sprintf("all edit histories of length <=%d over %d edit operations (append/insert/remove instructions, set/replace terminators (incl. value-producing unnamed invokes), name/rename/unname values, blocks and globals, add globals/functions/blocks, name a struct type in use, append/prepend metadata, append a metadata definition that already carries a sparse explicit ID, take the address of a global in another global, change a global's address space; create a global / function as a declaration, later give it an initializer / a body, set linkage and other attributes; <=2 functions, <=3 blocks) on a fresh module, replayed from scratch; for each history the observer-free run is the reference and EVERY placement of one observer (of %d kinds) at every position is executed (two observers for histories of length <=%d); oracle: final String() equals the reference, no panic on a complete module, String() twice identical. distinct = (history, observer placement).", maxLen, len(ops), len(obs), maxLen2)
+	c.Rule = fmt.Sprintf("all edit histories of length <=%d over %d edit operations (append/insert/remove instructions, set/replace terminators (incl. value-producing unnamed invokes), name/rename/unname values, blocks and globals, add globals/functions/blocks, name a struct type in use, append/prepend metadata, append a metadata definition that already carries a sparse explicit ID, take the address of a global in another global, change a global's address space; create a global / function as a declaration, later give it an initializer / a body, set linkage and other attributes; start from a module without global variables; store the address of a block of the last function in the first function; <=2 functions, <=3 blocks) on a fresh module, replayed from scratch; for each history the observer-free run is the reference and EVERY placement of one observer (of %d kinds) at every position is executed (two observers for histories of length <=%d); oracle: final String() equals the reference, no panic on a complete module, String() twice identical. distinct = (history, observer placement).", maxLen, len(ops), len(obs), maxLen2)
 	// enumerate histories (BFS over enabled ops).
 	var hists [][]int
 	var rec func(seq []int)
